@@ -258,16 +258,35 @@ func objectItemPrefixBasedEditRange(remainingRange hcl.Range, fileBytes []byte, 
 		Start: hcl.Pos{
 			// TODO: Calculate Line+Column for multi-line keys?
 			Line:   remainingRange.Start.Line,
-			Column: remainingRange.Start.Column - len(rawPrefixBytes),
+			Column: remainingRange.Start.Column - columnWidth(rawPrefixBytes),
 			Byte:   remainingRange.Start.Byte - len(rawPrefixBytes),
 		},
 		End: hcl.Pos{
 			// TODO: Calculate Line+Column for multi-line values?
 			Line:   remainingRange.Start.Line,
-			Column: remainingRange.Start.Column + trimmedOffset,
+			Column: remainingRange.Start.Column + columnWidth(trimmedRightBytes),
 			Byte:   remainingRange.Start.Byte + trimmedOffset,
 		},
 	}
+}
+
+// columnWidth returns the number of columns (grapheme clusters, as counted
+// by HCL) which the given single-line bytes occupy.
+func columnWidth(b []byte) int {
+	if len(b) == 0 {
+		return 0
+	}
+	sc := hcl.NewRangeScanner(b, "", func(data []byte, atEOF bool) (int, []byte, error) {
+		if len(data) == 0 {
+			return 0, nil, nil
+		}
+		return len(data), data, nil
+	})
+	width := 0
+	for sc.Scan() {
+		width = sc.Range().End.Column - sc.Range().Start.Column
+	}
+	return width
 }
 
 func objectAttributesToCandidates(ctx context.Context, prefix string, attrs schema.ObjectAttributes, declared declaredAttributes, editRange hcl.Range) []lang.Candidate {
